@@ -1,5 +1,6 @@
 import PoxModel.Proofs.STreeLoop
 import PoxModel.Proofs.STreeBridge
+import PoxModel.Proofs.STreeSpec
 import PoxModel.Proofs.DiscoveryBits
 import PoxModel.Proofs.DiscoveryInv
 import PoxModel.Proofs.DiscoveryEvents
@@ -119,6 +120,79 @@ def excName {α : Type} : Except String α → Option String
   | .error e => some e
   | .ok _ => none
 example : excName (calcTreeL [⟨1, 1, 1, 2⟩, ⟨1, 2, 1, 1⟩] [1]) = some "AssertionError" := by decide
+
+/-! ## The tree the property allows: any spanning forest of the bidirectional links
+
+The property leaves open WHICH forest is used (and which of several parallel cables).  `Spec.validForest adj t` (Model/STree.lean,
+executable) is what it does state of a tree; the correspondence run applies it to the tree the IMPLEMENTATION chose and compares
+everything that follows from the choice exactly (`updateTreeOf` / `stepOf` with that tree handed in). -/
+
+/-- MODEL_TREE_VALID.  For every adjacency without self-links and every iteration order, the tree `_calc_spanning_tree` as written
+chooses is one of the trees the specification allows: the modelled code's choice is a member of the set the implementation's choice
+is required to be in. -/
+theorem model_tree_valid (adj : List Link) (order : List Nat)
+    (hns : ∀ l ∈ adj, l.dpid1 ≠ l.dpid2) (hord : ∀ x ∈ switchesOf adj, x ∈ order) :
+    ∃ t, calcTreeL adj order = .ok t ∧ Spec.validForest adj t = true ∧ Spec.verdict adj t = "ok" := by
+  obtain ⟨t, ht, hleaf, hlinks, hconn⟩ := tree_is_forest adj order hns hord
+  have h1 : Spec.linksOK adj t = true := by
+    simp only [Spec.linksOK, List.all_eq_true, Bool.and_eq_true, decide_eq_true_eq]
+    intro e he
+    obtain ⟨a, b, c⟩ := hlinks e he
+    exact ⟨⟨a, b⟩, c⟩
+  have h2 : Spec.acyclic (Spec.edgesOf t) = true := acyclic_of_leafSeq _ hleaf
+  have h3 : Spec.spans adj t = true := by
+    simp only [Spec.spans, List.all_eq_true, Bool.or_eq_true, Bool.not_eq_true', decide_eq_false_iff_not]
+    intro l hl
+    by_cases hf : l.flip ∈ adj
+    · exact .inr (sameComp_of_conn ((hconn _ _).mpr (.step ⟨l, hl, rfl, rfl, hf⟩)))
+    · exact .inl hf
+  exact ⟨t, ht, by simp [Spec.validForest, h1, h2, h3], by simp [Spec.verdict, h1, h2, h3]⟩
+
+/-- VALID_FOREST_SOUND (what an accepted tree is, in the terms of `tree_is_forest`): every edge, with its two ports, is a link
+known in both directions, and two switches are connected in the tree iff they are connected by bidirectional links. -/
+theorem valid_forest_sound (adj : List Link) (t : List TEdge) (h : Spec.validForest adj t = true) :
+    (∀ e ∈ t, e.v ≠ e.w ∧ (⟨e.v, e.pv, e.w, e.pw⟩ : Link) ∈ adj ∧ (⟨e.w, e.pw, e.v, e.pv⟩ : Link) ∈ adj) ∧
+    (∀ a b, Conn (t.map fun e => (e.v, e.w)) a b ↔ RConn (Bidir adj) a b) := by
+  simp only [Spec.validForest, Bool.and_eq_true] at h
+  obtain ⟨⟨h1, _⟩, h3⟩ := h
+  have hl : ∀ e ∈ t, e.v ≠ e.w ∧ (⟨e.v, e.pv, e.w, e.pw⟩ : Link) ∈ adj ∧ (⟨e.w, e.pw, e.v, e.pv⟩ : Link) ∈ adj := by
+    simp only [Spec.linksOK, List.all_eq_true, Bool.and_eq_true, decide_eq_true_eq] at h1
+    intro e he
+    obtain ⟨⟨a, b⟩, c⟩ := h1 e he
+    exact ⟨a, b, c⟩
+  refine ⟨hl, fun a b => ⟨fun c => ?_, fun c => ?_⟩⟩
+  · induction c with
+    | refl a => exact .refl a
+    | edge he =>
+      obtain ⟨e, het, hx⟩ := List.mem_map.mp he
+      cases hx
+      exact .step ⟨⟨e.v, e.pv, e.w, e.pw⟩, (hl e het).2.1, rfl, rfl, (hl e het).2.2⟩
+    | symm _ ih => exact .symm ih
+    | trans _ _ i1 i2 => exact .trans i1 i2
+  · induction c with
+    | refl a => exact .refl a
+    | step hr =>
+      obtain ⟨l, hl', rfl, rfl, hf⟩ := hr
+      simp only [Spec.spans, List.all_eq_true, Bool.or_eq_true, Bool.not_eq_true', decide_eq_false_iff_not] at h3
+      rcases h3 l hl' with h | h
+      · exact absurd hf h
+      · exact conn_of_sameComp h
+    | symm _ ih => exact .symm ih
+    | trans _ _ i1 i2 => exact .trans i1 i2
+
+/-- non-vacuity: on the triangle with a parallel cable the specification accepts the modelled code's tree AND the other choices
+(the parallel cable 1.4-2.4; the path 2-1, 2-3), and refuses a cycle, the two ports of different parallel cables on one edge, a one-way
+link, a forest that leaves switch 3 out, and both parallel cables at once -/
+example : Spec.verdict triAdj [⟨1, 1, 2, 1⟩, ⟨1, 2, 3, 2⟩] = "ok" ∧ Spec.verdict triAdj [⟨1, 4, 2, 4⟩, ⟨3, 2, 1, 2⟩] = "ok" ∧
+    Spec.verdict triAdj [⟨2, 1, 1, 1⟩, ⟨2, 2, 3, 1⟩] = "ok" := by decide
+example : Spec.verdict triAdj [⟨1, 1, 2, 1⟩, ⟨1, 2, 3, 2⟩, ⟨2, 2, 3, 1⟩] = "cycle" ∧
+    Spec.verdict triAdj [⟨1, 1, 2, 4⟩, ⟨1, 2, 3, 2⟩] = "edge-not-a-bidirectional-link" ∧
+    Spec.verdict triAdj [⟨1, 1, 2, 1⟩, ⟨1, 2, 3, 2⟩, ⟨3, 3, 4, 1⟩] = "edge-not-a-bidirectional-link" ∧
+    Spec.verdict triAdj [⟨1, 1, 2, 1⟩] = "not-spanning" ∧
+    Spec.verdict triAdj [⟨1, 1, 2, 1⟩, ⟨1, 4, 2, 4⟩, ⟨1, 2, 3, 2⟩] = "cycle" := by decide
+/-- the tree a flood state amounts to: after the first `_update_tree()` on the triangle it is the tree that was pushed -/
+example : ((updateTree true triAdj [1, 2, 3, 4] [(1, [1, 2, 4]), (2, [1, 2, 4]), (3, [1, 2, 3])] []).toOption.map
+    fun r => Spec.floodTree triAdj r.1) = some [⟨1, 1, 2, 1⟩, ⟨1, 2, 3, 2⟩] := by decide
 
 /-! ## Discovery: LinkEvent stream and adjacency (both variants) -/
 
